@@ -41,6 +41,7 @@ func runC01(c *Ctx, r *Report) {
 	c01R5(c, r, "C01.R5")
 	c01R6(c, r, "C01.R6")
 	c01R7(c, r, "C01.R7")
+	c01R9(c, r, "C01.R9")
 	c13R6(c, r, "C01.R8") // the consumer of a wrapped listener is a "next component" too: what it is handed reads through the layer4 connection
 }
 
@@ -883,4 +884,52 @@ func (c *Ctx) builtOn(fn *ssa.Function, v, src ssa.Value, avoid func(ssa.Value) 
 		}
 	}
 	return false
+}
+
+// c01R9: a tap on the stream (io.TeeReader) placed by a handler reads from the layer4 connection itself, not from
+// what the connection's fields hold: below the matching buffer the tap misses every byte that was prefetched for
+// matching and is replayed from the buffer.
+func c01R9(c *Ctx, r *Report, rule string) {
+	r.rule(rule, "every io.TeeReader in a function that has a *layer4.Connection parameter takes its source from that connection itself (or a reader built on it), never from the connection's underlying Conn", 2)
+	for _, fn := range c.Funcs {
+		if len(fn.Blocks) == 0 {
+			continue
+		}
+		var conns []*ssa.Parameter
+		root := fn
+		for root.Parent() != nil {
+			root = root.Parent()
+		}
+		for _, p := range root.Params {
+			if isConnPtr(p.Type()) {
+				conns = append(conns, p)
+			}
+		}
+		if len(conns) == 0 {
+			continue
+		}
+		n := 0
+		for _, ci := range callsIn(fn) {
+			if calleeID(ci) != "io.TeeReader" {
+				continue
+			}
+			n++
+			src := ci.Common().Args[0]
+			underlying := func(v ssa.Value) bool {
+				ld, ok := v.(*ssa.UnOp)
+				if !ok || ld.Op != token.MUL {
+					return false
+				}
+				_, sn, _, ok := fieldAddr(ld.X)
+				return ok && sn == "layer4.Connection"
+			}
+			good := false
+			for _, cp := range conns {
+				if c.builtOn(fn, src, cp, underlying, 0) {
+					good = true
+				}
+			}
+			r.check(good, rule, fname(fn), fmt.Sprintf("TeeReader#%d source", n), c.ipos(ci), "taps the connection itself", "the tee reads from something other than the layer4 connection itself (e.g. its underlying Conn): bytes prefetched during matching are replayed from the buffer above the tap and never reach the tee's writer - the branch/upstream misses the start of the stream")
+		}
+	}
 }
